@@ -218,6 +218,10 @@ def main(tier, write_baseline=False):
     run = Run("C06", tier, "other", checker_cmd=common.checker_cmd("C06", tier))
     run.trusted_base.update(["cddvc E1 (records with presence bits, Seq view of `required`)", "z3 5.1"])
     refuted = e1.run_contracts(run, "contracts.C06")
+    # the parse half of the round-trip clause: json_schema_property_to_param writes the real json_type2typ of the schema type and
+    # wraps it in Optional[...] iff the property is not required (block contract of contracts/C14.py, verified here as well)
+    refuted += e1.run_contracts(run, "contracts.C14", only={"cdd.json_schema.utils.parse_utils:json_schema_property_to_param#fold-keywords",
+                                                                   "cdd.json_schema.utils.parse_utils:json_schema_property_to_param#optional-iff-not-required"})
     # fold lemma (Lean 4 kernel): with the callee contract above and side conditions S1-S4, `required` is the list of
     # the non-Optional parameter names in order, for parameter lists of any length
     common.lean_theorems(run, "C06", "C06.lean", ("required_is_filter", "required_iff_not_optional", "pattern_roundtrip"))
@@ -242,7 +246,7 @@ def main(tier, write_baseline=False):
             continue
         seen.add(o["name"])
         cand = next(iter(fails.values()), None)
-        fi = rule_inputs.get(o["name"]) or common.model_replay("contracts.C06", o) or ({"ir": json.loads(json.dumps(cand[0], default=str)), "what": cand[1]} if cand else None)
+        fi = rule_inputs.get(o["name"]) or (common.optional_iff_not_required_replay() if "optional-iff-not-required" in o["name"] else None) or common.model_replay("contracts.C14" if "json_schema_property_to_param" in o["name"] else "contracts.C06", o) or ({"ir": json.loads(json.dumps(cand[0], default=str)), "what": cand[1]} if cand else None)
         run.violation(o["name"], "obligation refuted by %s on path %s%s" % (o["backend"], " ".join(o["trace"]), (": " + "; ".join(o.get("notes") or [])[:300]) if o.get("notes") else ""),
                       failing_input=fi, solver_output={"model": o["model"], "smt2": (o["smt2"] or "")[:5000]})
     for fk, (ir, what) in fails.items():
